@@ -53,6 +53,14 @@ CHECKS = {
          "lists over {x,y,z-dangling} on root and loggers): strict success iff well-formed, reported names = offending names (no innocent, none missing), lossy result = valid items in order, "
          "and every returned Config goes through Logger::new and is logged through with deliveries checked by the reference router.",
          "Trusted: well-formedness read literally from the property text (so '::a' is well-formed).", "DESIGN.md §5 C13"),
+ "C14": ("model_checking", "E-ENUM",
+         "bounded exhaustive enumeration of logical configurations rendered into three formats and compared behaviourally with the programmatic configuration; exhaustive single-fault injection into documents",
+         "3192 (thorough: 8k+) logical configurations (capture/file/rolling_file appenders with every optional field present or defaulted: append, encoder kind/pattern/json, policy kind, trigger size/time/onstartup(min_size), "
+         "roller delete/fixed_window(base), 0-2 threshold filters; loggers with additive absent/true/false; root level present/defaulted; refresh_rate) are printed by harness printers into YAML, JSON and TOML, loaded by the real "
+         "load_config_file and driven with 12 probe records next to the Config built from the same value through the public builders: capture deliveries and produced files must be identical and equal to the routing reference. "
+         "Every permutation of every map with 2-4 keys; every single injection (unknown key per section, wrong type / degenerate number per scalar, unknown kinds, dangling names) x 3 formats: strict pipeline fails, lossy loading "
+         "rejects the document or keeps every healthy part working (a broken filter is dropped, its appender keeps the others); file extension selects the parser; never a panic.",
+         "Trusted: the harness printers and the routing reference; timestamps/thread ids are normalised; console appenders are C18's.", "DESIGN.md §5 C14"),
  "C15": ("model_checking", "E-SCHED + E-HIST + E-PROC",
          "preemption-bounded exhaustive schedule exploration of real threads for the swap; explicit-state exploration of a reloader model with every poll-terminated history replayed on the real reloader thread",
          "Swap atomicity: 1-2 logging threads x 1-2 records against 1-2 threads calling Handle::set_config (configurations with different appender table sizes, one that switches the probed level off), "
@@ -162,7 +170,7 @@ def main():
         "hooks": {
             "guard": "--cfg log4rs_verif",
             "enable": "RUSTFLAGS='--cfg log4rs_verif' (exported by run.sh/setup.sh; the harness crate path-depends on /repo)",
-            "baseline_off_cmd": "cd /repo && cargo nextest run --workspace --no-fail-fast --offline",
+            "baseline_off_cmd": "cd /repo && (cargo nextest run --workspace --no-fail-fast --offline || cargo test --workspace --no-fail-fast --offline)",
             "source_commits": hooks_commits,
             "add_only": True,
         },
